@@ -53,3 +53,38 @@ Theorem c03_xml_roundtrip :
   wf_content gzip gunzip c = true -> bytes_ok ks = true ->
   parse_events gunzip (dump_events gzip c ks) ks = Ok c.
 Proof. exact parse_dump_roundtrip. Qed.
+
+(* ---------------- END TO END: save followed by open is the identity (format/SaveOpen.v) ----------------
+   [save_model] mirrors Database::save + dump_kdbx4 (object mapping, XML text, inner header, compression,
+   outer cipher, HMAC block stream, header), [open_model] mirrors Database::open + parse_kdbx4.  The XML
+   text layer of xml-rs ([render]/[lex]) and the primitives are parameters; the only law assumed of the
+   text layer is that it reads back the events of the one document that was written. *)
+From KP Require Import SaveOpen.
+Theorem c03_save_open_identity :
+  forall (sha256 sha512 : bytes -> bytes) (hmac256 : bytes -> bytes -> bytes)
+         (kdf : kdfcfg -> bytes -> bytes -> Kdbx4.res bytes)
+         (outer_enc outer_dec : ocipher -> bytes -> bytes -> bytes -> Kdbx4.res bytes)
+         (compress decompress : compression -> bytes -> Kdbx4.res bytes)
+         (gzip : bytes -> bytes) (gunzip : bytes -> option bytes)
+         (render : list ev -> bytes) (lex : bytes -> list ev)
+         (keystream : icipher -> bytes -> bytes)
+         (other_formats : dbversion -> bytes -> Kdbx4.res (list bytes) -> outcome ferr database),
+  (forall m, length (sha256 m) = 32%nat) ->
+  (forall k m, length (hmac256 k m) = 32%nat) ->
+  (forall c key iv p ct, outer_enc c key iv p = Ok ct -> outer_dec c key iv ct = Ok p) ->
+  (forall z p c, compress z p = Ok c -> decompress z c = Ok p) ->
+  (forall c k, bytes_ok (keystream c k) = true) ->
+  forall (cfg : config) (atts : list attachment) (c : content) (d : draws) (vd : vdict)
+         (elements : Kdbx4.res (list bytes)) (file : bytes) (minor : N),
+  let db := mkDb cfg atts c in
+  c_version cfg = KDB4 minor -> minor < 2 ^ 16 ->
+  draws_ok cfg d = true ->
+  Permutation vd (vd_of_kdf (c_kdf cfg) (d_kdf_seed d)) ->
+  kdf_params_ok (c_kdf cfg) = true ->
+  atts_ok atts = true ->
+  wf_content gzip gunzip c = true ->
+  lex (render (document gzip keystream db d)) = document gzip keystream db d ->
+  save_model sha256 sha512 hmac256 kdf outer_enc compress gzip render keystream db d vd elements = Ok file ->
+  N.of_nat (length file) < 2 ^ 32 ->
+  open_model sha256 sha512 hmac256 kdf outer_dec decompress gunzip lex keystream other_formats file elements = Ok db.
+Proof. exact save_open_identity. Qed.
